@@ -42,7 +42,9 @@ pub struct IncRoot {
     pub fee_kind: FeeKind,
     /// setup prefix: 0 = nothing; 1 = alice & bob hold open positions; 2 = + one flow opened by carol and one tick+snapshot;
     /// 3 = like 2, then 5 more epochs (each with a snapshot; alice claims in epoch 3) so that the 4-epoch flow has ended;
-    /// 4 = positions, a 130-epoch flow, then 99 epochs with snapshots and nobody claiming (claim cap boundary)
+    /// 4 = positions, a 130-epoch flow, then 99 epochs with snapshots and nobody claiming (claim cap boundary);
+    /// 5 = two stakers from epoch 1, a 20-epoch flow, 5 epochs with snapshots, only the second staker claimed (epoch 5), now epoch 6 with snapshot;
+    /// 6 = positions, two concurrent 70-epoch flows, then 55 epochs with snapshots and nobody claiming
     pub prefix: u8,
     /// users keep a large standing cw20 allowance towards the incentive contract (as UIs and the
     /// repository's own tests do) instead of approving exactly the stated amount per call
@@ -106,6 +108,12 @@ pub enum IAct {
     OpenFlow { creator: String, amount: u64, funds: String, end_delta: u64 },
     ExpandFlow { id: u64, amount: u64, funds: String, by: String },
     CloseFlow { id: u64, by: String },
+    /// OpenFlow whose start epoch lies `back` epochs in the past (allowed by the contract)
+    OpenFlowPast { creator: String, amount: u64, back: u64, end_delta: u64 },
+    /// every user holding an open position claims, in user order
+    ClaimAll,
+    /// next epoch, its snapshot, then every staker claims
+    Round,
 }
 
 pub fn inc_exec(w: &mut World, h: &IH, sender: &str, msg: &IncExec, funds: &[Coin]) -> TxResult {
@@ -309,6 +317,7 @@ impl Scenario for IncScn {
         let mut g = IG { epoch: 1, next_flow_id: 1, ..Default::default() };
         let mut cx = Cx::default();
         if r.prefix >= 1 {
+            // (prefix 5: both stakers use the minimum duration so that their weights are equal)
             let a = self.users[0].clone();
             let bb = self.users[1].clone();
             self.step(w, &h, &mut g, &IAct::Open { user: a, amount: 1000, dur: 0, receiver: None }, &mut cx);
@@ -328,6 +337,27 @@ impl Scenario for IncScn {
                     let a = self.users[0].clone();
                     self.step(w, &h, &mut g, &IAct::Claim { user: a }, &mut cx);
                 }
+            }
+        }
+        if r.prefix == 5 {
+            let c = self.users.last().unwrap().clone();
+            self.step(w, &h, &mut g, &IAct::OpenFlow { creator: c, amount: 10_000, funds: "exact".into(), end_delta: 20 }, &mut cx);
+            for e in 0..5 {
+                self.step(w, &h, &mut g, &IAct::Tick, &mut cx);
+                self.step(w, &h, &mut g, &IAct::Snapshot { user: MALLORY.into() }, &mut cx);
+                if e == 3 {
+                    let bb = self.users[1].clone();
+                    self.step(w, &h, &mut g, &IAct::Claim { user: bb }, &mut cx);
+                }
+            }
+        }
+        if r.prefix == 6 {
+            let c = self.users.last().unwrap().clone();
+            self.step(w, &h, &mut g, &IAct::OpenFlow { creator: c.clone(), amount: 7_000_000, funds: "exact".into(), end_delta: 70 }, &mut cx);
+            self.step(w, &h, &mut g, &IAct::OpenFlow { creator: c, amount: 7_000_000, funds: "exact".into(), end_delta: 70 }, &mut cx);
+            for _ in 0..55 {
+                self.step(w, &h, &mut g, &IAct::Tick, &mut cx);
+                self.step(w, &h, &mut g, &IAct::Snapshot { user: MALLORY.into() }, &mut cx);
             }
         }
         if r.prefix == 4 {
@@ -398,6 +428,20 @@ impl Scenario for IncScn {
                     v.push(IAct::OpenFlow { creator: us[us.len() - 1].clone(), amount: 5000, funds: "exact".into(), end_delta: 3 });
                 }
             }
+            "C12" if h.root.prefix == 5 => {
+                // long-history mode: composite rounds so that whole flow lifetimes are within the depth bound
+                if g.flows.len() < 3 {
+                    v.push(IAct::OpenFlowPast { creator: MALLORY.into(), amount: 10_000, back: 5, end_delta: 5 });
+                    v.push(IAct::OpenFlow { creator: MALLORY.into(), amount: 10_000, funds: "exact".into(), end_delta: 4 });
+                }
+                v.push(IAct::ClaimAll);
+                v.push(IAct::Round);
+                v.push(IAct::Claim { user: us[0].clone() });
+                for (id, f) in g.flows.iter() {
+                    v.push(IAct::ExpandFlow { id: *id, amount: 5000, funds: "exact".into(), by: f.creator.clone() });
+                    v.push(IAct::CloseFlow { id: *id, by: f.creator.clone() });
+                }
+            }
             "C12" => {
                 let creators: Vec<String> = vec![us[0].clone(), us[1].clone()];
                 if g.flows.len() < 3 {
@@ -450,6 +494,65 @@ impl Scenario for IncScn {
     }
 
     fn step(&self, w: &mut World, h: &IH, g: &mut IG, a: &IAct, cx: &mut Cx) {
+        match a {
+            IAct::ClaimAll | IAct::Round => {
+                if matches!(a, IAct::Round) {
+                    self.step(w, h, g, &IAct::Tick, cx);
+                    self.step(w, h, g, &IAct::Snapshot { user: MALLORY.into() }, cx);
+                }
+                let stakers: Vec<String> = self.users.iter().filter(|u| g.open.keys().any(|(x, _)| x == *u)).cloned().collect();
+                for u in stakers {
+                    self.step(w, h, g, &IAct::Claim { user: u }, cx);
+                }
+                return;
+            }
+            IAct::OpenFlowPast { creator, amount, back, end_delta } => {
+                let declared = *amount as u128;
+                let same = h.fee == h.reward;
+                let mut coins: Vec<Coin> = vec![];
+                for (ai, amt) in [(&h.reward, declared), (&h.fee, if same { 0 } else { FLOW_FEE })] {
+                    match ai {
+                        AssetInfo::NativeToken { denom } => {
+                            if amt > 0 {
+                                coins.push(coin(amt, denom));
+                            }
+                        }
+                        AssetInfo::Token { contract_addr } => {
+                            if amt > 0 {
+                                set_allowance(w, contract_addr, creator, &h.incentive, amt);
+                            }
+                        }
+                    }
+                }
+                coins.sort_by(|x, y| x.denom.cmp(&y.denom));
+                let ib = bal(w, &h.reward, &h.incentive);
+                let start = g.epoch.saturating_sub(*back).max(1);
+                let r = inc_exec(
+                    w,
+                    h,
+                    creator,
+                    &IncExec::OpenFlow { start_epoch: Some(start), end_epoch: Some(g.epoch + end_delta), curve: None, flow_asset: asset(&h.reward, declared), flow_label: None },
+                    &coins,
+                );
+                if r.is_ok() {
+                    cx.count("openflow:ok");
+                    cx.count("openflow:start_in_the_past");
+                    let received = bal(w, &h.reward, &h.incentive) - ib;
+                    let id = g.next_flow_id;
+                    g.next_flow_id += 1;
+                    g.flows.insert(id, FlowG { creator: creator.clone(), funded: received });
+                } else {
+                    cx.count("openflow:rejected");
+                }
+                for ai in [&h.reward, &h.fee] {
+                    if let AssetInfo::Token { contract_addr } = ai {
+                        set_allowance(w, contract_addr, creator, &h.incentive, 0);
+                    }
+                }
+                return;
+            }
+            _ => {}
+        }
         let c11 = self.property == "C11";
         let c12 = self.property == "C12";
         let c13 = self.property == "C13";
@@ -790,6 +893,7 @@ impl Scenario for IncScn {
                     set_allowance(w, contract_addr, by, &h.incentive, 0);
                 }
             }
+            IAct::OpenFlowPast { .. } | IAct::ClaimAll | IAct::Round => unreachable!(),
             IAct::CloseFlow { id, by } => {
                 let fg = g.flows.get(id).cloned();
                 let claimed = flows_of(w, h).iter().find(|f| f.flow_id == *id).map(|f| f.claimed_amount.u128());
